@@ -715,6 +715,7 @@ def install(E):
         "insertvalue": E.op_insertvalue, "extractelement": E.op_extractelement,
         "insertelement": E.op_insertelement, "shufflevector": E.op_shufflevector, "freeze": E.op_freeze,
         "call": E.op_call, "invoke": E.op_call, "fence": E.op_fence,
+        "atomicrmw": E.op_atomicrmw, "cmpxchg": E.op_cmpxchg,
     })
     E._dispatch = d
 
